@@ -324,6 +324,7 @@ pub fn check_fault(c: &FaultCase, obs: &mut Obs) -> Verdict {
 }
 
 pub fn c15_cli_faults(ctx: &Ctx) -> bool {
+    ctx.shrink_iters.store(200, std::sync::atomic::Ordering::Relaxed);
     ctx.run_prop("cli_fault_sequences", RULE_FAULTS, ctx.cases(30, 1600), strat_fault, check_fault)
 }
 
@@ -485,6 +486,7 @@ fn strat_c08_cli(t: Tier) -> BoxedStrategy<crate::props::c08::Case> {
 }
 
 pub fn c08_cli(ctx: &Ctx) -> bool {
+    ctx.shrink_iters.store(200, std::sync::atomic::Ordering::Relaxed);
     ctx.run_prop("cli_fx_folder", RULE_C08_CLI, ctx.cases(10, 600), strat_c08_cli, check_c08_cli)
 }
 
@@ -593,5 +595,6 @@ fn strat_c17_mcp(t: Tier) -> BoxedStrategy<crate::props::c17::Case> {
 }
 
 pub fn c17_mcp(ctx: &Ctx) -> bool {
+    ctx.shrink_iters.store(60, std::sync::atomic::Ordering::Relaxed);
     ctx.run_prop("mcp_figures", RULE_C17_MCP, ctx.cases(4, 400), strat_c17_mcp, check_c17_mcp)
 }
